@@ -8,7 +8,8 @@ from . import shapes as S
 FUNCTIONS = ['<T as ::core::clone::Clone>::clone (educe expansion: struct, enum, union)', '<T as ::core::clone::Clone>::clone_from (educe expansion)',
              'impl ::core::marker::Copy for T (emitted next to Clone)']
 FIELD = {'b': ('Bump', None), 'm': ('Bump', 'clone_m'), 'u': ('u8', None), 'l': ('Unlawful', None), 'k': ('Unlawful', 'clone_mu'), 'v': ('u8', 'clone_m8'),
-         'd': ('PhantomData', None)}     # a *user* type named like core's PhantomData (declared in the module): it carries data and is cloned
+         'd': ('PhantomData', None),
+         'M': ('Bump', 'DeepClone::clone')}     # a method whose path ends in `Clone::clone`     # a *user* type named like core's PhantomData (declared in the module): it carries data and is cloned
 USER_PHANTOM = '''#[derive(PartialEq, Debug)]
 pub struct PhantomData(pub u8);
 impl Clone for PhantomData { fn clone(&self) -> Self { PhantomData(self.0.wrapping_add(1)) } }
@@ -45,7 +46,7 @@ def expected_field(c, e, bitwise):
         return f'Bump({e}.0.wrapping_add(1))'
     if c == 'd':
         return f'PhantomData({e}.0.wrapping_add(1))'
-    if c == 'm':
+    if c in 'mM':
         return f'Bump({e}.0 ^ 0x80)'
     if c == 'l':
         return f'Unlawful({e}.0)' if bitwise else f'Unlawful({e}.0.wrapping_add(1))'
@@ -66,7 +67,7 @@ def emit(modname, cfgid, shape, copy=False, sp=None, pre='', t_override=None, xf
     t = t_override or build(shape, copy)
     if xf:
         xf(t)
-    has_method = any(f.code in 'mkv' for v in t.variants for f in v.fields)
+    has_method = any(f.code in 'mkvM' for v in t.variants for f in v.fields)
     bitwise = copy and not has_method
     body = pre + render_type(t, sp) + any_fn(t) + variant_index_fn(t) + oracle_fn(t, bitwise)
     h1 = Harness('h_clone', covers=['reached'])
@@ -173,6 +174,8 @@ def gen(tier, seed):
         mods.append(emit(f'm{n:04d}', f'{S.shape_id(sh)}/copy=0/wide', sh, False)); n += 1
     for sh in [('struct', [('named', ['u', 'd'])]), ('struct', [('tuple', ['d', 'b'])]), ('enum', [('tuple', ['d', 'u']), ('named', ['b', 'd']), ('unit', [])])]:
         mods.append(emit(f'm{n:04d}', f'{S.shape_id(sh)}/copy=0/field type named PhantomData', sh, False, pre=USER_PHANTOM)); n += 1
+    for sh in [('struct', [('named', ['M', 'b'])]), ('struct', [('tuple', ['u', 'M'])]), ('enum', [('tuple', ['M', 'u']), ('named', ['b', 'M']), ('unit', [])])]:
+        mods.append(emit(f'm{n:04d}', f'{S.shape_id(sh)}/copy=0/method path ending in Clone::clone', sh, False)); n += 1
     mods.append(union_module(f'm{n:04d}')); n += 1
     mods.append(generic_module(f'm{n:04d}')); n += 1
     decl, anyv, vidx = S.big_enum('Clone')
